@@ -84,19 +84,21 @@ Theorem C09_string_template : forall f level env pre name post v m,
 Proof. intros. eapply mx_irm_template; eassumption. Qed.
 Print Assumptions C09_string_template.
 
-(* ---- `$$` ---- *)
+(* ---- `$$` : a literal dollar sign in every environment ---- *)
 Theorem C09_dollar : forall f level env pre post,
-  (level <= 15)%nat -> mx_no_empty_var env -> ~ In mx_ch_dollar pre -> ~ In mx_ch_dollar post ->
+  (level <= 15)%nat -> ~ In mx_ch_dollar pre -> ~ In mx_ch_dollar post ->
   mx_irm (S f) level env false (pre ++ mx_ch_dollar :: mx_ch_dollar :: post) = MxOk (MxStr (pre ++ mx_ch_dollar :: post)) false.
 Proof. exact mx_dollar_string. Qed.
 Print Assumptions C09_dollar.
 
-(* recorded finding dollar-empty-var: with a custom variable named "" `$$` fails the whole check *)
-Theorem C09_dollar_empty_var_refuted :
-  mx_irm mx_fuel 2 mx_dollar_witness_env false [mx_ch_dollar; mx_ch_dollar] = MxThrow MxErrUnclosed /\
-  mx_resolve_arguments mx_dollar_witness_env (MxArr [MxStr [97]; MxStr [mx_ch_dollar; mx_ch_dollar]]) None = MxCmdThrow MxErrUnclosed.
-Proof. exact mx_dollar_refuted. Qed.
-Print Assumptions C09_dollar_empty_var_refuted.
+(* for the record of the fixed finding (fix 4feca083): the OLD code, [mx_resolve1_pre_fix], handed the "$" of `$$`
+   back to the recursive resolver when a custom variable was named "", and re-parsing "$" throws *)
+Theorem C09_dollar_old_code_refuted : forall rec,
+  mx_resolve1_pre_fix rec mx_dollar_witness_env false [] =
+  match rec [mx_ch_dollar] with MxThrow e => MxThrow e | MxOk v m => MxOk v m end /\
+  mx_irm 1 3 mx_dollar_witness_env false [mx_ch_dollar] = MxThrow MxErrUnclosed.
+Proof. exact mx_dollar_pre_fix_refuted. Qed.
+Print Assumptions C09_dollar_old_code_refuted.
 
 (* ---- missing macros ---- *)
 Theorem C09_missing_optional : forall env cmd pre a post name,
@@ -146,14 +148,28 @@ Theorem C09_output_split : forall text perf,
 Proof. exact mx_output_line. Qed.
 Print Assumptions C09_output_split.
 
+(* perfdata "l1=v1 l2=v2 ..." with plain labels (no '=', blank, quote, ':'; not starting with white space) and
+   blank-free values is split into exactly its items, each unchanged *)
+Theorem C09_perfdata_items : forall pairs,
+  Forall (fun p => mx_pd_plain_label (fst p) /\ ~ In mx_ch_space (snd p)) pairs ->
+  mx_split_perfdata (mx_join [mx_ch_space] (List.map mx_pd_item pairs)) = List.map mx_pd_item pairs.
+Proof. exact mx_split_perfdata_items. Qed.
+Print Assumptions C09_perfdata_items.
+
+(* more than 16 argument definitions: with pairwise distinct `order` every sorted permutation - the result of
+   std::sort whatever algorithm it uses - is the model's sort, so C09_array_verbatim_order applies unchanged *)
+Theorem C09_sort_unique : forall l l' : list mx_carg,
+  NoDup (List.map mx_ca_order l) -> Permutation l' l -> StronglySorted mx_ord_le l' -> l' = mx_sort l.
+Proof. exact mx_sort_unique. Qed.
+Print Assumptions C09_sort_unique.
+
 (* ---- the oracle run over implementation traces never fires on what the model produces ---- *)
 Theorem C09_oracle_accepts_model : forall env command arguments plugin_exit plugin_out,
-  mx_env_has_empty_var env = false ->
   mx_oracle_resolve env command arguments (mx_resolve_arguments env command arguments) = None /\
   (mx_plugin_argv (mx_resolve_arguments env command arguments) <> MxArgvUnknown ->
    mx_oracle_exec env command arguments plugin_exit plugin_out (mx_observe_exec env command arguments plugin_exit plugin_out) = None).
 Proof.
-  intros. split; [apply mx_oracle_resolve_accepts; assumption|]. intros. apply mx_oracle_exec_accepts; assumption.
+  intros. split; [apply mx_oracle_resolve_accepts|]. intros. apply mx_oracle_exec_accepts; assumption.
 Qed.
 Print Assumptions C09_oracle_accepts_model.
 
